@@ -249,3 +249,281 @@ def _(u):
 
     with capture_sort(after=assume_sorted_form):
         u.run(CVRP, "CVRPEnv.check_solution_validity", td, act, asserts="prove")
+
+
+# ---------------------------------------------------------------------------------------------
+# PDP: every node exactly once, no depot inside the tour, every pickup before its delivery
+# ---------------------------------------------------------------------------------------------
+PDP = "rl4co/envs/routing/pdp/env.py"
+
+
+class capture_argsort:
+    def __init__(self, after=None):
+        self.results, self.after = [], after
+
+    def __enter__(self):
+        from tvc.methods import TF, TM
+
+        self.orig = (TM["argsort"], TF["argsort"])
+
+        def wrapped(t, *a, **k):
+            r = self.orig[0](t, *a, **k)
+            self.results.append(r)
+            if self.after:
+                self.after(r)
+            return r
+
+        TM["argsort"] = TF["argsort"] = wrapped
+        return self
+
+    def __exit__(self, *a):
+        from tvc.methods import TF, TM
+
+        TM["argsort"], TF["argsort"] = self.orig
+
+
+@unit("pdp.check.sound", file=PDP, func="PDPEnv.check_solution_validity", props=("C06",))
+def _(u):
+    B, H = u.dims("B H")
+    T = 2 * H                      # customers: pickups 1..H, deliveries H+1..2H; the tour has T actions (free start: no leading depot)
+    act = u.tensor("actions", (B, T), "i")
+    td = u.td(B, locs=((B, T + 1, 2), "f"))
+    env = u.obj(PDP, "PDPEnv", force_start_at_depot=False)
+    with capture_sort() as cs, capture_argsort() as ca:
+        u.run(PDP, "PDPEnv.check_solution_validity", td, act, selfobj=env, asserts="record")
+    n = T + 1
+    b = u.idx((B,), "b")
+    t1, t2 = u.idx((T, T), "t1 t2")
+    v = u.idx(((1, T + 1),), "v")
+    # the checker works on actions' = [0] ++ actions (length T+1): input position t of actions is position t+1 there
+    g = lambda nm, k: z3.Int(f"{nm}.g{k}")
+    sort_instances(u, cs.results[0], b, [t1 + 1, t2 + 1, 0], n)
+    sorted_pos_instances(u, cs.results[0], b, [v, 0], n)
+    sort_instances(u, cs.results[0], g("check.sound.in-range", 0), [g("check.sound.in-range", 1) + 1, 0], n)
+    sort_instances(u, cs.results[0], g("check.sound.no-duplicate", 0), [g("check.sound.no-duplicate", 1) + 1, g("check.sound.no-duplicate", 2) + 1, 0], n)
+    u.prove_forall("check.sound.in-range", (B, T), lambda bb, x: AND(act.at(bb, x) >= 1, act.at(bb, x) <= T), tags=("C06",))
+    u.prove_forall("check.sound.no-duplicate", (B, T, T), lambda bb, x, y: IMPL(zint(x) != zint(y), act.at(bb, x) != act.at(bb, y)), tags=("C06",))
+    u.prove("check.sound.no-missing-node", u.exists((T,), lambda t: act.at(b, t) == v), tags=("C06",))
+    # precedence, through the argsort the checker uses: its own sorted row is strictly increasing inside [0, T] (ordered + distinct),
+    # hence the identity (lemma incr.identity), hence argsort[v] is THE position of node v
+    info = ca.results[0].prov[1]
+    S2, P2, Q2, src2 = info["S"], info["P"], info["Q"], info["src"]
+    S2t = mk((B, n), "i", lambda I: S2(zint(I[0]), zint(I[1])))
+    qb, qt = z3.Ints("pdp.qb pdp.qt")
+    # consequence of the assumed argsort contract: every input position has a sorted position holding its value
+    u.ctx.assume(z3.ForAll([qb, qt], z3.Implies(z3.And(qb >= 0, qb < zint(B), qt >= 0, qt < zint(n)),
+                                                z3.And(Q2(qb, qt) >= 0, Q2(qb, qt) < zint(n), P2(qb, Q2(qb, qt)) == qt, S2(qb, Q2(qb, qt)) == src2.at(qb, qt))),
+                           patterns=[Q2(qb, qt)]))
+    gb, gk = z3.Int("pdp.g0"), z3.Int("pdp.g1")
+    u.prove_forall("check.argsort.values-in-range", (B, n), lambda bb, kk: AND(S2(zint(bb), zint(kk)) >= 0, S2(zint(bb), zint(kk)) <= T), tags=("C06",))
+    u.prove_forall("check.argsort.strict", (B, n, n), lambda bb, k1, k2: IMPL(zint(k1) < zint(k2), S2(zint(bb), zint(k1)) < S2(zint(bb), zint(k2))), tags=("C06",))
+    incr_identity_hint(u, S2t, B, n)
+    u.prove_forall("check.argsort.sorted-is-identity", (B, n), lambda bb, kk: S2(zint(bb), zint(kk)) == zint(kk), tags=("C06",))
+    i = u.idx(((1, H + 1),), "i")
+    tp, tdl = u.idx((T, T), "tp td")
+    # instances: sorted positions of the two tour positions, and the recorded precedence assert at pair i
+    from tvc.unit import all_instance
+
+    for t in (tp + 1, tdl + 1):
+        k = Q2(zint(b), zint(t))
+        u.ctx.assume(AND(k >= 0, k < zint(n), P2(zint(b), k) == zint(t), S2(zint(b), k) == src2.at(b, t)))
+    prec = [r for r in u.ctx.reds.values() if r.kind == "all" and len(r.ns) == 2]
+    if prec:   # (concrete runs unroll the reduction: nothing to instantiate)
+        all_instance(u, prec[-1], (), (b, i - 1))
+    u.prove("check.sound.pickup-before-delivery",
+            IMPL(AND(act.at(b, tp) == i, act.at(b, tdl) == i + H), tp < tdl), tags=("C06",))
+    u.canary("check.sound.delivery-right-after-pickup", IMPL(AND(act.at(b, tp) == i, act.at(b, tdl) == i + H), tdl == tp + 1))
+
+
+def _with_prov(t, info):
+    t.prov = ("sort", info)
+    return t
+
+
+@unit("pdp.check.complete", file=PDP, func="PDPEnv.check_solution_validity", props=("C06",))
+def _(u):
+    B, H = u.dims("B H")
+    T = 2 * H
+    n = T + 1
+    act = u.tensor("actions", (B, T), "i")
+    td = u.td(B, locs=((B, T + 1, 2), "f"))
+    env = u.obj(PDP, "PDPEnv", force_start_at_depot=False)
+    # feasible by the definition: every customer exactly once, no depot, each pickup i before its delivery i + H
+    u.requires(u.forall((B, T), lambda b, t: AND(act.at(b, t) >= 1, act.at(b, t) <= T)))
+    u.requires(u.forall((B, T, T), lambda b, x, y: IMPL(zint(x) != zint(y), act.at(b, x) != act.at(b, y))))
+    u.requires(u.forall((B, T, T), lambda b, x, y: IMPL(AND(act.at(b, x) >= 1, act.at(b, x) <= H, act.at(b, y) == act.at(b, x) + H), zint(x) < zint(y))))
+
+    def after_sort(r):
+        # ordered + distinct values inside [0, T]  =>  strictly increasing  =>  the identity (lemma incr.identity)
+        incr_identity_hint(u, r[0], B, n)
+
+    def after_argsort(r):
+        info = r.prov[1]
+        S2, P2, Q2, src2 = info["S"], info["P"], info["Q"], info["src"]
+        S2t = mk((B, n), "i", lambda I: S2(zint(I[0]), zint(I[1])))
+        incr_identity_hint(u, S2t, B, n)
+        # two lemmas (proved, then available quantified): the argsort's sorted row is the identity, so argsort[k] is the
+        # position of node k: for k >= 1 it lies in the tour proper and the action there is k
+        u.prove_forall("complete.argsort.sorted-is-identity", (B, n), lambda bb, kk: S2(zint(bb), zint(kk)) == zint(kk), tags=("C06",))
+        g0, g1 = z3.Int("complete.argsort.position-of-node.g0"), z3.Int("complete.argsort.position-of-node.g1")
+        pk = P2(g0, g1)   # ground instance of the assumed argsort contract at the lemma's arbitrary (row, node)
+        u.ctx.assume(IMPL(AND(g0 >= 0, g0 < zint(B), g1 >= 0, g1 < zint(n)), AND(pk >= 0, pk < zint(n), S2(g0, g1) == src2.at(g0, pk), S2(g0, g1) == g1)))
+        u.prove_forall("complete.argsort.position-of-node", (B, (1, n)),
+                       lambda bb, kk: AND(P2(zint(bb), zint(kk)) >= 1, P2(zint(bb), zint(kk)) <= T, act.at(bb, P2(zint(bb), zint(kk)) - 1) == zint(kk)), tags=("C06",))
+
+    with capture_sort(after=after_sort), capture_argsort(after=after_argsort):
+        u.run(PDP, "PDPEnv.check_solution_validity", td, act, selfobj=env, asserts="prove")
+
+
+# ---------------------------------------------------------------------------------------------
+# OP: no customer twice (depot any number of times), tour length within the budget
+# ---------------------------------------------------------------------------------------------
+OPF = "rl4co/envs/routing/op/env.py"
+
+
+def _nonzero_once_sound(u, cs, act, B, T, b, t1, t2):
+    """From the recorded 'sorted row is zero or strictly increasing' assert: a non-zero node occurs at most once."""
+    from tvc.unit import all_instance
+
+    res = cs.results[0]
+    info = res[0].prov[1]
+    S, P, Q = info["S"], info["P"], info["Q"]
+    sort_instances(u, res, b, [t1, t2], T)
+    k1, k2 = Q(zint(b), zint(t1)), Q(zint(b), zint(t2))
+    dup = [r for r in u.ctx.reds.values() if r.kind == "all" and len(r.ns) == 2]
+    if dup:
+        # the assert speaks about sorted positions 1..T-1 (index j = k - 1): instances at the later of the two positions
+        all_instance(u, dup[0], (), (b, k1 - 1))
+        all_instance(u, dup[0], (), (b, k2 - 1))
+    # ordering of the sorted row between the two positions (instances of the assumed contract)
+    u.ctx.assume(AND(IMPL(k1 < k2, S(zint(b), k1) <= S(zint(b), k2 - 1)), IMPL(k2 < k1, S(zint(b), k2) <= S(zint(b), k1 - 1)),
+                     IMPL(k1 == k2, zint(t1) == zint(t2))))
+
+
+@unit("op.check.sound", file=OPF, func="OPEnv.check_solution_validity", props=("C06",))
+def _(u):
+    B, N, T = u.dims("B N T")
+    act = u.tensor("actions", (B, T), "i")
+    td = u.td(B, locs=((B, N + 1, 2), "f"), max_length=((B, N + 1), "f"))
+    u.requires(u.forall((B, T), lambda b, t: AND(act.at(b, t) >= 0, act.at(b, t) <= N)))   # indices valid for gather (domain of the checker)
+    with capture_sort() as cs:
+        u.run(OPF, "OPEnv.check_solution_validity", td, act, asserts="record")
+    b = u.idx((B,), "b")
+    t1, t2 = u.idx((T, T), "t1 t2")
+    _nonzero_once_sound(u, cs, act, B, T, b, t1, t2)
+    u.prove("check.sound.customer-at-most-once", IMPL(AND(t1 != t2, act.at(b, t1) != 0), act.at(b, t1) != act.at(b, t2)), tags=("C06",))
+    u.canary("check.sound.depot-at-most-once", IMPL(t1 != t2, act.at(b, t1) != act.at(b, t2)))
+    # length: closed tour through the visited nodes in order; budget of node j = stored max_length[j] + distance(depot, j)
+    # (the reset stores max_length - distance to depot per node), tolerance 1e-6 + 1e-5
+    from .ops_helpers import tour_length_tensor
+
+    ordered = mk((B, T, 2), "f", lambda I: td["locs"].at(I[0], act.at(I[0], I[1]), I[2]))
+    length = tour_length_tensor(ordered)
+    j = u.idx((N + 1,), "j")
+    d0j = ops.NORM2(td["locs"].at(b, 0, 0) - td["locs"].at(b, j, 0), td["locs"].at(b, 0, 1) - td["locs"].at(b, j, 1))
+    u.prove("check.sound.length-within-budget", length.at(b) <= td["max_length"].at(b, j) + d0j + zreal(1e-6) + zreal(1e-5), tags=("C06",))
+    u.canary("check.sound.length-strictly-below-stored-budget", length.at(b) <= td["max_length"].at(b, j))
+
+
+# ---------------------------------------------------------------------------------------------
+# PCTSP (and SPCTSP, which inherits the checker): no customer twice; collected prize >= 1 or every customer visited
+# ---------------------------------------------------------------------------------------------
+PCF = "rl4co/envs/routing/pctsp/env.py"
+
+
+@unit("pctsp.check.sound", file=PCF, func="PCTSPEnv.check_solution_validity", props=("C06",))
+def _(u):
+    B, N, T = u.dims("B N T")
+    act = u.tensor("actions", (B, T), "i")
+    td = u.td(B, locs=((B, N + 1, 2), "f"), real_prize=((B, N + 1), "f"))
+    u.requires(u.forall((B, T), lambda b, t: AND(act.at(b, t) >= 0, act.at(b, t) <= N)))
+    with capture_sort() as cs:
+        u.run(PCF, "PCTSPEnv.check_solution_validity", td, act, asserts="record")
+    b = u.idx((B,), "b")
+    t1, t2 = u.idx((T, T), "t1 t2")
+    _nonzero_once_sound(u, cs, act, B, T, b, t1, t2)
+    u.prove("check.sound.customer-at-most-once", IMPL(AND(t1 != t2, act.at(b, t1) != 0), act.at(b, t1) != act.at(b, t2)), tags=("C06",))
+    u.canary("check.sound.depot-at-most-once", IMPL(t1 != t2, act.at(b, t1) != act.at(b, t2)))
+    # prize: the checker's own two reductions are (1) the sum over the tour of the prize of the visited node (depot: 0) and
+    # (2) the number of zeros of the SORTED row; either (1) reaches 1 (tolerance 1e-5) or T - (2) equals the number of customers
+    sums = [r for r in u.ctx.reds.values() if r.kind == "sum" and r.outer_rank == 1]
+    S0 = cs.results[0][0]
+    if u.mode == "sym" and len(sums) == 2:
+        k = z3.Int("pctsp.k")
+        r_prize, r_zero = sums
+        a = act.at(b, k)
+        u.prove("check.sound.prize-sum-is-collected-prize", AND(zint(r_prize.ns[0]) == zint(T),
+                IMPL(AND(k >= 0, k < T), r_prize.body((b,), (k,)) == ite(a == 0, zreal(0), td["real_prize"].at(b, a)))), tags=("C06",))
+        u.prove("check.sound.count-is-zeros-of-sorted-row", AND(zint(r_zero.ns[0]) == zint(T),
+                IMPL(AND(k >= 0, k < T), r_zero.body((b,), (k,)) == ite(S0.at(b, k) == 0, 1, 0))), tags=("C06",))
+        u.prove("check.sound.prize-or-all-visited", OR(r_prize.app((b,)) >= 1 - zreal(1e-5), zint(T) - r_zero.app((b,)) == N), tags=("C06",))
+        u.canary("check.sound.prize-always-reached", r_prize.app((b,)) >= 1 - zreal(1e-5))
+    else:
+        collected, nonzero = zreal(0), 0
+        for t in range(T):
+            a = act.at(b, t)
+            collected = collected + ite(a == 0, zreal(0), td["real_prize"].at(b, a))
+            nonzero = nonzero + ite(a != 0, 1, 0)
+        for nm in ("check.sound.prize-sum-is-collected-prize", "check.sound.count-is-zeros-of-sorted-row", "check.sound.prize-or-all-visited"):
+            u.prove(nm, OR(collected >= 1 - zreal(1e-5), nonzero == N), tags=("C06",))
+        u.canary("check.sound.prize-always-reached", collected >= 1 - zreal(1e-5))
+
+
+# ---------------------------------------------------------------------------------------------
+# CVRPTW: time windows along the tour (the capacity / visit part is CVRPEnv's checker, proved above)
+# ---------------------------------------------------------------------------------------------
+CTW = "rl4co/envs/routing/cvrptw/env.py"
+
+
+def _cvrptw_ghost(u, td, act, B, N, T):
+    """Service start time and departure time by the problem definition (uninterpreted, unfolded once per step):
+       start(b,t) = max(leave(b,t) + dist(prev node, a_t), window start of a_t);  leave(b,t+1) = 0 at the depot else start + duration."""
+    start = z3.Function("tw_start_def", z3.IntSort(), z3.IntSort(), z3.RealSort())
+    leave = z3.Function("tw_leave_def", z3.IntSort(), z3.IntSort(), z3.RealSort())
+    locs, tw, dur = td["locs"], td["time_windows"], td["durations"]
+    prev = lambda b, t: ite(zint(t) == 0, 0, act.at(b, zint(t) - 1))
+    dist = lambda b, p, q: ops.NORM2(locs.at(b, p, 0) - locs.at(b, q, 0), locs.at(b, p, 1) - locs.at(b, q, 1))
+
+    def unfold(b, t):
+        a = act.at(b, t)
+        arr = leave(b, zint(t)) + dist(b, prev(b, t), a)
+        st = ite(arr >= tw.at(b, a, 0), arr, tw.at(b, a, 0))
+        return AND(start(b, zint(t)) == st, leave(b, zint(t) + 1) == ite(a == 0, zreal(0), st + dur.at(b, a)))
+
+    base = u.forall((B,), lambda b: leave(b, 0) == 0)
+    if u.mode == "conc":
+        base = AND(base, u.forall((B, T), lambda b, t: unfold(b, t)))
+    return start, leave, unfold, base, prev
+
+
+@unit("cvrptw.check.timewindows.sound", file=CTW, func="CVRPTWEnv.check_solution_validity", props=("C06",))
+def _(u):
+    B, N = u.dims("B N")
+    T = u.dim("T", 2)
+    td = u.td(B, locs=((B, N + 1, 2), "f"), time_windows=((B, N + 1, 2), "f"), durations=((B, N + 1), "f"))
+    act = u.tensor("actions", (B, T), "i")
+    u.requires(u.forall((B, T), lambda b, t: AND(act.at(b, t) >= 0, act.at(b, t) <= N)))
+    start, leave, unfold, base, prev = _cvrptw_ghost(u, td, act, B, N, T)
+    u.requires(base)
+    # the capacity / visit part is CVRPEnv.check_solution_validity (units cvrp.check.*): abstracted here
+    u.stub(CVRPEnv=u.ns(check_solution_validity=lambda td_, a_: None))
+
+    def inv(env, i):
+        ct, cn = env["curr_time"], env["curr_node"]
+        cnat = (lambda b: cn.at(b, 0)) if cn.rank == 2 else (lambda b: cn.at(b))
+        return [("curr_time-is-departure-time", u.forall((B,), lambda b: ct.at(b, 0) == leave(b, zint(i)))),
+                ("curr_node-is-previous-node", u.forall((B,), lambda b: cnat(b) == prev(b, i))),
+                ("all-earlier-deadlines-held", u.forall((B, (0, zint(i))), lambda b, t: start(b, t) <= td["time_windows"].at(b, act.at(b, t), 1)))]
+
+    u.loop(CTW, "CVRPTWEnv.check_solution_validity", 0,
+           LoopInvariant(inv, name="tw-loop", tags=("C06",), peel=True, facts=lambda env, i: [u.forall((B,), lambda b: unfold(b, i))]))
+    u.run(CTW, "CVRPTWEnv.check_solution_validity", td, act, asserts="record")
+    b = u.idx((B,), "b")
+    t = u.idx((T,), "t")
+    j = u.idx((N + 1,), "j")
+    u.prove("check.sound.service-starts-within-window", start(b, t) <= td["time_windows"].at(b, act.at(b, t), 1), tags=("C06",))
+    # instance sanity asserts: windows are non-empty and leave time to serve and return
+    d0 = ops.NORM2(td["locs"].at(b, 0, 0) - td["locs"].at(b, j, 0), td["locs"].at(b, 0, 1) - td["locs"].at(b, j, 1))
+    u.prove("check.sound.instance-window-nonempty", td["time_windows"].at(b, j, 0) < td["time_windows"].at(b, j, 1), tags=("C06",))
+    u.prove("check.sound.instance-return-in-time", td["time_windows"].at(b, j, 0) + d0 + td["durations"].at(b, j) <= td["time_windows"].at(b, 0, 1), tags=("C06",))
+    u.canary("check.sound.start-strictly-before-deadline", start(b, t) < td["time_windows"].at(b, act.at(b, t), 1))
